@@ -164,8 +164,8 @@ package martian
 //@   ensures tableIdle()
 //@   ensures[returns-the-linked-context] has(ctxs, req) ==> result == ctxs[req]
 //@   ensures !has(ctxs, req) ==> result == nil
-//@   assumes result == nil ==> !apiMarked(req)
-//@   assumes result != nil ==> result.apiRequest == apiMarked(req) && ctxIdle(result)
+//@   assumes result == nil ==> !apiMarked(req) && !skipMarked(req)
+//@   assumes result != nil ==> result.apiRequest == apiMarked(req) && result.skipLogging == skipMarked(req) && ctxIdle(result) && len(result.id) >= 8
 
 // ---------------------------------------------------------------------------------------------
 // The proxy core (proxy.go).
@@ -402,3 +402,17 @@ package martian
 //@   ensures result != nil && !typeis(result, *MultiError)
 //@ extern func errors.New
 //@   ensures result != nil && !typeis(result, *MultiError)
+
+// skip-logging mark of a request's context (C15), tied to NewContext / SkippingLogging by definition
+//@ specfunc skipMarked(req *http.Request) bool
+//@ pred linked(req *http.Request) = tableIdle() && has(ctxs, req) && ctxs[req] != nil && ctxIdle(ctxs[req]) && len(ctxs[req].id) >= 8
+//@ func (*Context).SkippingLogging
+//@   serves C15
+//@   requires ctxIdle(ctx)
+//@   modifies ctx.mu.rheld
+//@   ensures result == ctx.skipLogging && ctxIdle(ctx)
+//@ func (*Context).ID
+//@   serves C15
+//@   requires ctx != nil
+//@   modifies nothing
+//@   ensures result == ctx.id
